@@ -35,7 +35,14 @@ def fam_core(seed, i):
         for c in kinds:
             sc["clients"][c] = Prog(rng, c, handles.get(c, {}), w, [[], [], [Y]], cnt).run(rng.randint(8, 11))
         return sc
-    if rng.random() < 0.3:
+    if rng.random() < 0.08 and cfg["cap"] >= 0:
+        # a handler that naps for seconds of virtual time while senders wait for room: however long it takes, a send
+        # returns only when the actor has caught up
+        sc["horizon"] = 6000
+        sc["idle_only"] = True
+        w = {"send": 8, "call": 2, "ping": 1, "yield": 1}
+        scripts = [[eff("sleep", 1500)], [eff("sleep", 2500)], [], [Y]]
+    elif rng.random() < 0.3:
         # pings used as barriers while handlers are suspended mid-way and other clients' pings are queued
         w = {"send": 5, "ping": 6, "call": 2, "yield": 2}
         scripts = [[Y], [Y, Y], [Y], []]
@@ -265,7 +272,8 @@ def fam_timeout(seed, i):
     sc = base("timeout", seed, i, rng, horizon=60)
     sc["idle_only"] = rng.random() < 0.7
     t = rng.choice([-1, 2, 3, 3, 4, 0])       # -1: none; 0: a configured timeout of zero
-    cfg = {"cap": rng.choice([-1, -1, 1, 2]), "tmo": t, "failto": t >= 0 and rng.random() < 0.3, "pscr": [Y] * rng.choice([0, 1]), "owning": rng.random() < 0.4}
+    cfg = {"cap": rng.choice([-1, -1, 1, 2]), "tmo": t, "failto": t >= 0 and rng.random() < 0.3, "pscr": [Y] * rng.choice([0, 1]), "owning": rng.random() < 0.4,
+           "strat": rng.choice(["restart", "restart", "recreate", "none"])}
     # callbacks are not handlers: however long started / stopped take, the handler timeout does not apply to them
     r = rng.random()
     if r < 0.25:
